@@ -86,7 +86,7 @@ Proof.
       - unfold bs_finalize, bs_finalize_ro in Hs. rewrite Hopts, Hv in Hs.
         unfold bs_close in Hs. cbn [set_flags ws_opts ws_finalized ws_closed] in Hs.
         rewrite Hopts, Hv, Hcl in Hs. cbn [negb andb] in Hs. inversion Hs. reflexivity.
-      - unfold st_finalize in Hs. rewrite Hcl, Hopts, Hv in Hs. inversion Hs. reflexivity. }
+      - unfold st_finalize in Hs. rewrite Hfin, Hcl, Hopts, Hv in Hs. inversion Hs. reflexivity. }
     rewrite Hfile2, Hfile. unfold prefix, layout. rewrite Hv. reflexivity.
   - destruct (final_index o ro stored) as [fi|] eqn:Hfi.
     + exists fi. split; [|intros _; reflexivity].
@@ -115,9 +115,9 @@ Proof.
           { unfold bs_close in Hbc. destruct (negb _ && negb _); [inversion Hbc; reflexivity|].
             destruct (ws_closed s'); inversion Hbc; reflexivity. }
           rewrite H. apply (G false true). exact Hsf.
-        - unfold st_finalize in Hs. rewrite Hcl, Hopts, Hv in Hs.
-          destruct (store_finalize (set_flags s1 true (ws_finalized s1))) as [s' r1] eqn:Hsf.
-          inversion Hs; subst. apply (G true (ws_finalized s1)). exact Hsf. }
+        - unfold st_finalize in Hs. rewrite Hfin, Hcl, Hopts, Hv in Hs.
+          destruct (store_finalize (set_flags s1 true false)) as [s' r1] eqn:Hsf.
+          inversion Hs; subst. apply (G true false). exact Hsf. }
       pose proof (inv_file _ _ _ _ _ _ I1) as Hfile1.
       assert (Hfit : 51 + w_dpad o + blen (payload_opt ro stored) + w_ipad o < two64).
       { rewrite Hfile1 in Hgrow. unfold prefix in Hgrow. rewrite Hv in Hgrow.
